@@ -373,6 +373,34 @@ func main() {
 			jobs <- job{fmt.Sprintf("top-level Go code next to the white-space character(s) %q", ws), "unicode white space", src}
 		}
 	}
+	// (iv) what stands between the braces of every kind of expression: nothing, blanks, comments only, a comment before
+	// or after the expression, a line comment before the closing brace, unbalanced quotes, dangling operators
+	holes := []string{"", " ", "/* c */", "// c\n", "x /* c */", "/* c */ x", "x // c\n\t", "\n", "x,", "...", "x...", "`", "\"", "'", "x +", "x)", "(x", "x }", "{ x", "/*", "*/", "x\u00a0"}
+	sites := []string{
+		"templ T(x string) {\n\t<p>{ % }</p>\n}", "templ T(x string) {\n\t{ % }\n}", "templ T(x string) {\n\t<p title={ % }>t</p>\n}", "templ T(x string) {\n\t<p class={ % }>t</p>\n}",
+		"templ T(x string) {\n\t<p style={ % }>t</p>\n}", "templ T(x string) {\n\t<p hidden?={ % }>t</p>\n}", "templ T(x string) {\n\t<p { %... }>t</p>\n}", "templ T(x string) {\n\t<a href={ % }>t</a>\n}",
+		"templ T(x string) {\n\t<p onclick={ % }>t</p>\n}", "templ T(x string) {\n\t@c(%)\n}", "templ T(x string) {\n\t@c(%) {\n\t\t<b>k</b>\n\t}\n}", "templ T(x string) {\n\t{{ % }}\n}",
+		"templ T(x string) {\n\t<script>var a = {{ % }};</script>\n}", "templ T(x string) {\n\t<script>var a = \"{{ % }}\";</script>\n}", "css c(x string) {\n\tcolor: { % };\n}", "css c(x string) {\n\tcolor: red;\n\tmargin: { % };\n\tpadding: 0;\n}",
+		"templ T(x string) {\n\tif % {\n\t\t<b>k</b>\n\t}\n}", "templ T(x string) {\n\tfor % {\n\t\t<b>k</b>\n\t}\n}", "templ T(x string) {\n\tswitch % {\n\tcase %:\n\t\t<b>k</b>\n\t}\n}", "templ T(x string) {\n\t{! % }\n}",
+		"templ T(x string) {\n\t<p if % { a=\"b\" }>t</p>\n}", "templ T(%) {\n\t<p>t</p>\n}", "css c(%) {\n\tcolor: red;\n}", "script s(%) {\n\tvar a = 1;\n}", "templ T(x string) {\n\t{ children... % }\n}",
+		"templ T(x string) {\n\t<p title={ % } class={ x }>{ % }</p>\n}",
+	}
+	for _, site := range sites {
+		for _, h := range holes {
+			jobs <- job{fmt.Sprintf("expression content %q", h), "expression sites", "package p\n\n" + strings.ReplaceAll(site, "%", h) + "\n"}
+			seqs++
+		}
+	}
+	// (v) the contents of a script element: every string of ≤ N JavaScript-level tokens (slashes, stars, brackets,
+	// quotes, backslashes, template-literal and Go-expression delimiters, comment markers, tag openers), as the whole
+	// contents, where a regular-expression literal may stand (`var r = /…/;`) and inside a string literal
+	jsAlphabet := []string{"/", "*", "[", "]", "\"", "'", "`", "\\", "{{ x }}", "{{", "}}", "${", "}", "a", " ", "\n", "//", "/*", "*/", "<", "</", "<!--"}
+	vlib.Seqs(jsAlphabet, run.Pick(3, 4), func(s string, _ []int) bool {
+		jobs <- job{"token string in a script element", "script alphabet", "package p\n\ntempl T(x string) {\n\t<script>" + s + "</script>\n}\n"}
+		jobs <- job{"token string in regular-expression position of a script element", "script alphabet", "package p\n\ntempl T(x string) {\n\t<script>var r = /" + s + "/; var b = {{ x }};</script>\n}\n"}
+		seqs += 2
+		return true
+	})
 	close(jobs)
 	wg.Wait()
 	finish("")
